@@ -66,6 +66,12 @@ enum Pred {
     InSpan(Prop),
     /// `dynamic_filter_fn`: ctx.lookup_current() has `Prop`
     CurIs(Prop),
+    /// a hand-written `Filter` that, like `EnvFilter` with span directives, notes the span
+    /// callsites it is offered (`callsite_enabled`) and enables exactly while the visible current
+    /// span is one of those and has `Prop`.  Generated only where every callsite is offered to it:
+    /// alone, or as the right operand of a top-level `or` (never under `and` / `not`, whose
+    /// short-circuits legitimately skip an operand).  Reference reading: the same as `CurIs`.
+    CurReg(Prop),
     And(Box<Pred>, Box<Pred>),
     Or(Box<Pred>, Box<Pred>),
     Not(Box<Pred>),
@@ -92,7 +98,7 @@ impl Pred {
             Pred::Targets(v, d) | Pred::Env(v, d) => dir_accept(v, *d, m),
             Pred::Fn(mask) | Pred::DynFn(mask) => mask_accept(*mask, m),
             Pred::InSpan(p) => chain.iter().any(|s| p.holds(*s)),
-            Pred::CurIs(p) => chain.first().map(|s| p.holds(*s)).unwrap_or(false),
+            Pred::CurIs(p) | Pred::CurReg(p) => chain.first().map(|s| p.holds(*s)).unwrap_or(false),
             Pred::And(a, b) => a.eval(m, chain) && b.eval(m, chain),
             Pred::Or(a, b) => a.eval(m, chain) || b.eval(m, chain),
             Pred::Not(a) => !a.eval(m, chain),
@@ -107,6 +113,7 @@ impl Pred {
             Pred::DynFn(m) => format!("dynamic_filter_fn(table {m:#x})"),
             Pred::InSpan(p) => format!("dyn(inside a visible span with {})", p.code()),
             Pred::CurIs(p) => format!("dyn(visible current span has {})", p.code()),
+            Pred::CurReg(p) => format!("noting_filter(visible current span was offered to me and has {})", p.code()),
             Pred::And(a, b) => format!("and({}, {})", a.code(), b.code()),
             Pred::Or(a, b) => format!("or({}, {})", a.code(), b.code()),
             Pred::Not(a) => format!("not({})", a.code()),
@@ -121,6 +128,7 @@ impl Pred {
             Pred::DynFn(_) => "dynfn".into(),
             Pred::InSpan(_) => "inspan".into(),
             Pred::CurIs(_) => "curis".into(),
+            Pred::CurReg(_) => "curreg".into(),
             Pred::And(a, b) => format!("and({},{})", a.kind(), b.kind()),
             Pred::Or(a, b) => format!("or({},{})", a.kind(), b.kind()),
             Pred::Not(a) => format!("not({})", a.kind()),
@@ -128,7 +136,7 @@ impl Pred {
     }
     fn context_dependent(&self) -> bool {
         match self {
-            Pred::InSpan(_) | Pred::CurIs(_) => true,
+            Pred::InSpan(_) | Pred::CurIs(_) | Pred::CurReg(_) => true,
             Pred::And(a, b) | Pred::Or(a, b) => a.context_dependent() || b.context_dependent(),
             Pred::Not(a) => a.context_dependent(),
             _ => false,
@@ -304,6 +312,10 @@ fn gen_prop(rng: &mut Rng) -> Prop {
     }
 }
 fn gen_pred(rng: &mut Rng, depth: usize) -> Pred {
+    if depth == 0 && rng.chance(1, 12) {
+        let noting = Pred::CurReg(gen_prop(rng));
+        return if rng.bool() { noting } else { Pred::Or(Box::new(gen_pred(rng, 1)), Box::new(noting)) };
+    }
     let comb = if depth < 2 { 2 } else { 0 };
     let w = [4u32, 3, 2, 3, 2, 3, 1, comb, comb, comb];
     match rng.weighted(&w) {
@@ -733,6 +745,23 @@ fn seen_chain<C: Col>(cx: &Context<'_, C>) -> Vec<Meta> {
         Some(s) => s.scope().map(|x| meta_of(x.metadata())).collect(),
     }
 }
+struct NotingFilter {
+    prop: Prop,
+    offered: std::sync::Mutex<std::collections::HashSet<tracing_core::callsite::Identifier>>,
+}
+impl<C: Col> Filter<C> for NotingFilter {
+    fn callsite_enabled(&self, meta: &'static Metadata<'static>) -> tracing_core::Interest {
+        if meta.is_span() {
+            self.offered.lock().unwrap().insert(meta.callsite());
+        }
+        tracing_core::Interest::sometimes()
+    }
+    fn enabled(&self, _m: &Metadata<'_>, cx: &Context<'_, C>) -> bool {
+        cx.lookup_current()
+            .map(|s| self.offered.lock().unwrap().contains(&s.metadata().callsite()) && self.prop.holds(meta_of(s.metadata())))
+            .unwrap_or(false)
+    }
+}
 fn build_filter<C: Col>(p: &Pred) -> BF<C> {
     match p {
         Pred::Level(l) => Box::new(vcs::filter_of(*l)),
@@ -754,6 +783,7 @@ fn build_filter<C: Col>(p: &Pred) -> BF<C> {
             let prop = *prop;
             Box::new(dynamic_filter_fn(move |_m: &Metadata<'_>, cx: &Context<'_, C>| cx.lookup_current().map(|s| prop.holds(meta_of(s.metadata()))).unwrap_or(false)))
         }
+        Pred::CurReg(prop) => Box::new(NotingFilter { prop: *prop, offered: Default::default() }),
         Pred::And(a, b) => Box::new(<BF<C> as FilterExt<C>>::and(build_filter::<C>(a), build_filter::<C>(b))),
         Pred::Or(a, b) => Box::new(<BF<C> as FilterExt<C>>::or(build_filter::<C>(a), build_filter::<C>(b))),
         Pred::Not(a) => Box::new(<BF<C> as FilterExt<C>>::not(build_filter::<C>(a))),
